@@ -85,15 +85,15 @@ Print Assumptions C18_string_source_chunk_partial.
 
 (* multi-byte characters of every UTF-8 length, a rollover in the middle
    (max_size 9), a read that leaves a character in the reader's look-ahead
-   followed by len, line calls: the hypotheses are met *)
+   followed by an explicit rollover() and by len, line calls: the hypotheses are met *)
 Definition c18_text_example : list fop :=
-  [Write [97;98;8212;99;10;100]; Seek 0 0; Read (Some 3%nat); Len; Read None;
+  [Write [97;98;8212;99;10;100]; Seek 0 0; Read (Some 3%nat); Rollover; Read (Some 1%nat); Len; Read None;
    WriteLines [[233;128512];[];[10;2048]]; Seek 2 0; ReadLine None; Next; ListAll; Seek 0 2; Seek 1 0; IterAll;
    Seek 3 0; ReadLines 0; GetValue].
 
 Example C18_string_inhabited :
   Forall op_valid c18_text_example /\ writes_odd_break c18_text_example = false /\
-  exists r, ref_run KString rf_empty c18_text_example = Some r /\ length r = 16%nat
+  exists r, ref_run KString rf_empty c18_text_example = Some r /\ length r = 18%nat
             /\ ss_run (ss_init 9 3) c18_text_example = r.
 Proof.
   split; [|split; [reflexivity|]].
